@@ -27,6 +27,12 @@ FLOWS = {
         " I --- 34:259472 --:------ 34:259472 1FC9 024 0023098BF5900030C98BF5900000088BF590001FC98BF590",
         " W --- 01:220768 34:259472 --:------ 1FC9 006 012309075E60",
         " I --- 34:259472 01:220768 --:------ 1FC9 006 0123098BF590")),
+    # ... and with the device information a T87RF casts right after its Confirm (the four-frame variant of the same pairing)
+    "RND>CTL+": ({"01:220768": {"class": "CTL"}}, {"34:259472": {"class": "RND", "faked": True}}, (
+        " I --- 34:259472 --:------ 34:259472 1FC9 030 0023098BF5900030C98BF5900000088BF5900010E08BF590001FC98BF590",
+        " W --- 01:220768 34:259472 --:------ 1FC9 006 012309075E60",
+        " I --- 34:259472 01:220768 --:------ 1FC9 006 0123098BF590",
+        " I --- 34:259472 63:262142 --:------ 10E0 038 000001C8380F0100F1FF070B07E6030507E15438375246323032350000000000000000000000")),
     "DHW>CTL": ({"01:145038": {"class": "CTL"}}, {"07:045960": {"class": "DHW", "faked": True}}, (
         " I --- 07:045960 --:------ 07:045960 1FC9 012 0012601CB388001FC91CB388",
         " W --- 01:145038 07:045960 --:------ 1FC9 006 0010A006368E",
@@ -391,7 +397,7 @@ def run(chk: Check) -> None:
     thorough = chk.tier == "thorough"
     n_ep = 1500 if thorough else 150
     chk.rule = (
-        "4 pairing flows (RND>CTL, DHW>CTL, CO2>FAN and REM>FAN with addenda) x seeded scenarios: per-frame per-listener delivery policy "
+        "5 pairing flows (RND>CTL without and with addenda, DHW>CTL, CO2>FAN and REM>FAN with addenda) x seeded scenarios: per-frame per-listener delivery policy "
         "(clean / 0-3 repeats / 25% loss / delays around 3 s and 5 s / mixed), third-party offers, accepts, confirms and addenda at random "
         "instants, one end alone (no peer); 3-4 attempts per gateway pair, the last one clean; non-trivial = distinct (flow, scenario)"
     )
